@@ -12,7 +12,7 @@ import traceback
 from .core import Checker, Ob, Rule, finish
 from .model import AnalysisError
 
-RULE_MODULES = ["c19", "c08", "c09", "c11", "c12"]
+RULE_MODULES = ["c19", "c08", "c09", "c11", "c12", "c13"]
 
 
 def all_rules() -> list[Rule]:
@@ -53,7 +53,14 @@ def run_property(prop: str, tier: str) -> int:
             if count < floors[prop]:
                 print(f"ANALYSIS-ERROR {prop}: only {count} rule instances from {mod_name}, floor is {floors[prop]}")
                 return 2
-    return finish(prop, tier, checker, obs, started, extra)
+    if checker.errors:
+        extra["analysis_errors"] = checker.errors
+    rc = finish(prop, tier, checker, obs, started, extra)
+    for err in checker.errors:
+        print(f"ANALYSIS-ERROR {err}")
+    if checker.errors and rc == 0:
+        return 2
+    return rc
 
 
 def main(argv: list[str]) -> int:
